@@ -108,14 +108,19 @@ func cmdRoute(o opts) {
 		// FixFrame: edit the received message, fix, write, next hop
 		if v.Var == "canon" || v.Var == "signed" || v.Var == "v1" || v.Var == "after_nul" {
 			for _, keyed := range []bool{false, true} {
-				fixOne(rec, r, v, drw, dl, keyed)
+				for _, edit := range []string{"all", "none", "sigfields"} {
+					if edit == "sigfields" && v.Var != "signed" {
+						continue
+					}
+					fixOne(rec, r, v, drw, dl, keyed, edit)
+				}
 			}
 		}
 	}
 	rec.Close()
 }
 
-func fixOne(rec *Rec, r *rand.Rand, v routeVec, drw *dialect.ReadWriter, dl []int, keyed bool) {
+func fixOne(rec *Rec, r *rand.Rand, v routeVec, drw *dialect.ReadWriter, dl []int, keyed bool, edit string) {
 	var outKey *frame.V2Key
 	keyJ := B{}
 	isV1 := v.Bytes[0] == 0xFE
@@ -147,10 +152,17 @@ func fixOne(rec *Rec, r *rand.Rand, v routeVec, drw *dialect.ReadWriter, dl []in
 	if err != nil {
 		return
 	}
-	// edit: every numeric field gets a new value, strings get a new text
+	// edit: every numeric field gets a new value, strings get a new text ("all"); nothing ("none": the frame still has
+	// to leave valid under the outgoing key); only the signature link id and timestamp ("sigfields")
 	msg := fr.GetMessage()
 	mv := reflect.ValueOf(msg).Elem()
-	for i := 0; i < mv.NumField(); i++ {
+	if edit == "sigfields" {
+		if v2, ok := fr.(*frame.V2Frame); ok {
+			v2.SignatureLinkID ^= 0x5A
+			v2.SignatureTimestamp += 12345
+		}
+	}
+	for i := 0; i < mv.NumField() && edit == "all"; i++ {
 		f := mv.Field(i)
 		switch f.Kind() {
 		case reflect.String:
@@ -164,7 +176,7 @@ func fixOne(rec *Rec, r *rand.Rand, v routeVec, drw *dialect.ReadWriter, dl []in
 		}
 	}
 	vals := valsOf(msg)
-	rcd := M{"e": "FIX", "dl": dl, "key": keyJ, "x0": v.Bytes, "d": v.D, "vals": vals, "var": v.Var, "panic": false}
+	rcd := M{"e": "FIX", "dl": dl, "key": keyJ, "x0": v.Bytes, "d": v.D, "vals": vals, "var": v.Var, "edit": edit, "panic": false}
 	func() {
 		defer func() {
 			if p := recover(); p != nil {
